@@ -254,8 +254,7 @@ Section Proofs.
   Qed.
 
   (* ---------------------------------------------------------------- ReadAll *)
-  Definition matches_desc (dg : str) (sz : Z) (bs : str) : Prop :=
-    Z.of_nat (length bs) = sz /\ dg = digest_of H (alg_of dg) bs /\ valid_digest dg = true.
+  Notation matches_desc := (matches_desc H).
 
   Lemma read_all_sound fixed fuel src dg sz buf v :
     read_all H comb fixed fuel src dg sz = ((None, buf), v) ->
@@ -312,4 +311,458 @@ Section Proofs.
     intro L. apply F5. rewrite C, E3. unfold new_vr. rewrite new_vr_lim. unfold lim_none. rewrite L. reflexivity.
   Qed.
 
+
+  (* ---------------------------------------------------------------- arbitrary use of a VerifyReader *)
+  Lemma vr_run_st3 S0 dg sz fuel ops : forall v out v' out',
+    st3 S0 dg sz v out -> vr_run H comb fuel dg ops v out = (v', out') ->
+    st3 S0 dg sz v' out' /\ lim_none (v_base v') = lim_none (v_base v).
+  Proof.
+    induction ops as [|[k|] r IH]; intros v out v' out' S; simpl.
+    - intro E; inversion E; subst; auto.
+    - destruct (vr_read v k) as [[bs e] v1] eqn:Er.
+      destruct (vr_read_st3 _ _ _ _ _ _ _ _ _ S Er) as (S1 & C1 & _ & _).
+      intro E. destruct (IH _ _ _ _ S1 E). split; auto. congruence.
+    - destruct (vr_verify fuel dg v) as [e v1] eqn:Ev.
+      destruct (vr_verify_st3 _ _ _ _ _ _ _ _ S Ev) as (S1 & C1 & _).
+      intro E. destruct (IH _ _ _ _ S1 E). split; auto. congruence.
+  Qed.
+
+  Lemma verify_reader_sound fuel src dg sz ops v out v' :
+    vr_run H comb fuel dg ops (new_vr true src dg sz) [] = (v, out) ->
+    vr_verify fuel dg v = (None, v') ->
+    matches_desc dg sz out /\
+    (exists rest, stream (b_evs src) = out ++ rest) /\
+    (b_lim src = None -> stream (b_evs src) = out) /\
+    (* afterwards the reader is at EOF and Verify stays nil *)
+    (forall k, vr_read v' k = (([], Some EEof), v')) /\ vr_verify fuel dg v' = (None, v').
+  Proof.
+    intros Er Ev.
+    assert (S : st3 (stream (b_evs src)) dg sz (new_vr true src dg sz) []).
+    { apply new_vr_st3. left; reflexivity. }
+    destruct (vr_run_st3 _ _ _ _ _ _ _ _ _ S Er) as (S1 & C1).
+    destruct (vr_verify_st3 _ _ _ _ _ _ _ _ S1 Ev) as (_ & C & Dn).
+    specialize (Dn eq_refl). pose proof Dn as (G1 & G2 & _).
+    apply done_facts in Dn as (F1 & F2 & F3 & F4 & F5).
+    split; [split; auto|]. split; [eexists; exact F4|]. split.
+    - intro L. apply F5. rewrite C, C1. unfold new_vr. rewrite new_vr_lim. unfold lim_none. rewrite L. reflexivity.
+    - split.
+      + intro k. unfold Verify.vr_read. rewrite G2. reflexivity.
+      + unfold Verify.vr_verify. rewrite G1. reflexivity.
+  Qed.
+
+  (* ---------------------------------------------------------------- descriptors, assoc lists *)
+  Lemma desc_eqb_spec x y : desc_eqb x y = true <-> x = y.
+  Proof.
+    destruct x as [m1 d1 s1], y as [m2 d2 s2]. unfold desc_eqb; simpl.
+    rewrite !andb_true_iff, !str_eqb_spec, Z.eqb_eq. split.
+    - intros [[-> ->] ->]. reflexivity.
+    - intro E; inversion E; auto.
+  Qed.
+
+  Lemma assoc_get_set l k v k' :
+    assoc_get (assoc_set l k v) k' = if str_eqb k k' then Some v else assoc_get l k'.
+  Proof.
+    unfold assoc_set; simpl. destruct (str_eqb k k') eqn:E; [reflexivity|].
+    induction l as [|[k0 v0] l IH]; simpl; [reflexivity|].
+    destruct (str_eqb k0 k) eqn:E0; simpl.
+    - apply str_eqb_spec in E0. subst k0. rewrite E. exact IH.
+    - destruct (str_eqb k0 k'); [reflexivity|exact IH].
+  Qed.
+
+  Arguments assoc_set : simpl never.
+
+  Definition desc_ok (d : desc) (bs : str) : Prop := matches_desc (d_dg d) (d_sz d) bs.
+
+  (* ---------------------------------------------------------------- cas.Memory *)
+  Definition mem_ok (m : mem) : Prop := forall d bs, mem_get m d = Some bs -> desc_ok d bs.
+
+  Lemma mem_push_spec fixed fuel m d src e m' :
+    mem_push H comb fixed fuel m d src = (e, m') ->
+    (e = None /\ mem_get m d = None /\
+     exists buf, m' = (d, buf) :: m /\ desc_ok d buf /\
+                 (exists rest, stream (b_evs src) = buf ++ rest) /\
+                 (b_lim src = None -> stream (b_evs src) = buf))
+    \/ (e <> None /\ m' = m).
+  Proof.
+    unfold mem_push. destruct (mem_get m d) eqn:G.
+    - intro E; inversion E; subst. right. split; [discriminate|reflexivity].
+    - destruct (read_all H comb fixed fuel src (d_dg d) (d_sz d)) as [[[e0|] buf] v] eqn:Er;
+        intro E; inversion E; subst.
+      + right. split; [discriminate|reflexivity].
+      + left. apply read_all_sound in Er as (A & B & C).
+        split; auto. split; auto. exists buf. repeat split; auto; apply A.
+  Qed.
+
+  Lemma mem_get_cons d buf m d' :
+    mem_get ((d, buf) :: m) d' = if desc_eqb d d' then Some buf else mem_get m d'.
+  Proof. reflexivity. Qed.
+
+  Lemma mem_push_ok fixed fuel m d src e m' :
+    mem_ok m -> mem_push H comb fixed fuel m d src = (e, m') -> mem_ok m'.
+  Proof.
+    intros Ok E. apply mem_push_spec in E as [(E1 & E2 & buf & -> & A & _)|(E1 & ->)]; auto.
+    intros d' bs. rewrite mem_get_cons. destruct (desc_eqb d d') eqn:Q.
+    - apply desc_eqb_spec in Q. subst d'. intro X; inversion X; subst. exact A.
+    - apply Ok.
+  Qed.
+
+  (* ---------------------------------------------------------------- LimitedStorage *)
+  Lemma limited_push_spec {St} (push : St -> desc -> base -> option rerr * St) limit st d evs e st' :
+    limited_push push limit st d evs = (e, st') ->
+    (e = Some ETooBig /\ st' = st) \/
+    ((d_sz d <= limit)%Z /\ push st d (mkBase evs (Some (d_sz d))) = (e, st')).
+  Proof.
+    unfold limited_push. destruct (d_sz d >? limit)%Z eqn:G.
+    - intro E; inversion E; auto.
+    - intro E. right. split; [lia|exact E].
+  Qed.
+
+  (* ---------------------------------------------------------------- oci.Storage *)
+  Definition oci_ok (s : oci) : Prop :=
+    forall dg bs, oci_get s dg = Some bs -> dg = digest_of H (alg_of dg) bs /\ valid_digest dg = true.
+
+  Lemma oci_push_spec fuel s d src e s' :
+    oci_push H comb true fuel s d src = (e, s') ->
+    (e = None /\ oci_get s (d_dg d) = None /\
+     exists out, s' = (d_dg d, out) :: s /\ desc_ok d out /\
+                 (exists rest, stream (b_evs src) = out ++ rest) /\
+                 (b_lim src = None -> stream (b_evs src) = out))
+    \/ (e <> None /\ s' = s).
+  Proof.
+    unfold oci_push. destruct (negb (valid_digest (d_dg d))).
+    { intro E; inversion E; subst. right. split; [discriminate|reflexivity]. }
+    destruct (oci_get s (d_dg d)) eqn:G.
+    - intro E; inversion E; subst. right. split; [discriminate|reflexivity].
+    - destruct (copy_buffer H comb true fuel src oci_bufsz (d_dg d) (d_sz d)) as [[[e0|] out] v] eqn:Er;
+        intro E; inversion E; subst.
+      + right. split; [discriminate|reflexivity].
+      + left. apply copy_buffer_sound in Er as (A & B & C).
+        split; auto. split; auto. exists out. repeat split; auto; apply A.
+  Qed.
+
+  Lemma oci_push_ok fuel s d src e s' :
+    oci_ok s -> oci_push H comb true fuel s d src = (e, s') -> oci_ok s'.
+  Proof.
+    intros Ok E. apply oci_push_spec in E as [(E1 & E2 & out & -> & A & _)|(E1 & ->)]; auto.
+    intros dg bs. simpl. destruct (str_eqb (d_dg d) dg) eqn:Q.
+    - apply str_eqb_spec in Q. subst dg. intro X; inversion X; subst. destruct A as (A1 & A2 & A3). auto.
+    - apply Ok.
+  Qed.
+
+  (* ---------------------------------------------------------------- file.Store *)
+  Definition file_ok (s : fstore) : Prop :=
+    (forall dg p, assoc_get (f_d2p s) dg = Some p ->
+       name_in p (f_names s) = true /\
+       exists bs, assoc_get (f_files s) p = Some bs /\ dg = digest_of H (alg_of dg) bs /\ valid_digest dg = true)
+    /\ mem_ok (f_fb s).
+
+  Lemma name_in_neq name p l : name_in name l = false -> name_in p l = true -> str_eqb name p = false.
+  Proof.
+    intros A B. destruct (str_eqb name p) eqn:E; auto. apply str_eqb_spec in E. subst. congruence.
+  Qed.
+
+  Lemma file_push_spec fuel s name d evs e s' :
+    file_ok s -> file_push H comb true fuel s name d evs = (e, s') ->
+    file_ok s' /\
+    (e = None ->
+       exists bs, file_fetch s' name d = Some bs /\ file_exists s' name d = true /\
+                  d_dg d = digest_of H (alg_of (d_dg d)) bs /\ valid_digest (d_dg d) = true /\
+                  (* unless the digest was already served from a named file, these are
+                     the pushed bytes, of the announced size *)
+                  ((name <> [] \/ assoc_get (f_d2p s) (d_dg d) = None) ->
+                   desc_ok d bs /\ exists rest, stream evs = bs ++ rest)) /\
+    (e <> None -> forall name' d', file_exists s' name' d' = file_exists s name' d' /\
+                                   file_fetch s' name' d' = file_fetch s name' d').
+  Proof.
+    intros [Ok1 Ok2]. unfold file_push. destruct name as [|c name0].
+    - (* fallback: LimitedStorage over cas.Memory *)
+      destruct (limited_push (mem_push H comb true fuel) defaultFallbackPushSizeLimit (f_fb s) d evs) as [e0 fb'] eqn:El.
+      intro E; inversion E; subst; clear E.
+      apply limited_push_spec in El as [(-> & ->)|(Lm & Ep)].
+      + split; [split; auto|]. split; [discriminate|]. intros _ name' d'. destruct s; auto.
+      + pose proof (mem_push_ok _ _ _ _ _ _ _ Ok2 Ep) as Ok2'.
+        apply mem_push_spec in Ep as [(-> & G & buf & -> & A & (rest & B) & _)|(Ne & ->)].
+        * split; [split; auto|]. split; [|intro X; congruence].
+          intros _. unfold file_fetch, file_exists; simpl.
+          destruct (assoc_get (f_d2p s) (d_dg d)) as [p|] eqn:Gp.
+          -- destruct (Ok1 _ _ Gp) as (_ & bs & Fb & Db & Vb).
+             exists bs. rewrite Fb. split; [reflexivity|]. split; [reflexivity|].
+             split; [exact Db|]. split; [exact Vb|]. intros [X|X]; congruence.
+          -- exists buf. try rewrite mem_get_cons.
+             assert (Q : desc_eqb d d = true) by (apply desc_eqb_spec; reflexivity). rewrite Q.
+             destruct A as (A1 & A2 & A3). repeat split; auto. exists rest; exact B.
+        * split; [split; auto|]. split; [congruence|]. intros _ name' d'. destruct s; auto.
+    - remember (c :: name0) as name eqn:Hn.
+      destruct (name_in name (f_names s)) eqn:Nin.
+      { intro E; inversion E; subst e s'. split; [split; auto|]. split; [discriminate|]. auto. }
+      destruct (copy_buffer H comb true fuel (mkBase evs None) file_bufsz (d_dg d) (d_sz d)) as [[[e0|] out] v] eqn:Ec;
+        intro E; inversion E; subst e s'; clear E.
+      + (* failed: the partial file stays, nothing is recorded *)
+        assert (Fk : forall dg p, assoc_get (f_d2p s) dg = Some p ->
+                       assoc_get (assoc_set (f_files s) name out) p = assoc_get (f_files s) p).
+        { intros dg p Gp. destruct (Ok1 _ _ Gp) as (Np & _).
+          rewrite assoc_get_set, (name_in_neq _ _ _ Nin Np). reflexivity. }
+        split; [|split; [discriminate|]].
+        * split; auto. cbn [f_d2p f_files f_names f_fb name_in existsb]. intros dg p Gp. destruct (Ok1 _ _ Gp) as (Np & bs & Fb & Db).
+          split; auto. exists bs. rewrite (Fk _ _ Gp). auto.
+        * intros _ name' d'. split; [reflexivity|]. unfold file_fetch; cbn [f_d2p f_files f_names f_fb name_in existsb].
+          destruct (negb _); auto.
+          destruct (assoc_get (f_d2p s) (d_dg d')) as [p|] eqn:Gp; auto. apply (Fk _ _ Gp).
+      + apply copy_buffer_sound in Ec as (A & (rest & B) & _). simpl in B.
+        split; [|split; [|congruence]].
+        * split; auto. cbn [f_d2p f_files f_names f_fb name_in existsb]. intros dg p. rewrite assoc_get_set.
+          destruct (str_eqb (d_dg d) dg) eqn:Q.
+          -- apply str_eqb_spec in Q. subst dg. intro X; inversion X; subst p.
+             rewrite str_eqb_refl. cbn [f_d2p f_files f_names f_fb name_in existsb]. split; auto.
+             exists out. rewrite assoc_get_set, str_eqb_refl. destruct A as (A1 & A2 & A3). auto.
+          -- intro Gp. destruct (Ok1 _ _ Gp) as (Np & bs & Fb & Db).
+             split; [apply orb_true_iff; right; exact Np|].
+             exists bs. rewrite assoc_get_set, (name_in_neq _ _ _ Nin Np). auto.
+        * intros _. exists out. unfold file_fetch, file_exists; cbn [f_d2p f_files f_names f_fb name_in existsb].
+          rewrite !assoc_get_set, !str_eqb_refl.
+          destruct name as [|c' n']; [discriminate Hn|]. cbn [orb negb].
+          rewrite !assoc_get_set, !str_eqb_refl. destruct A as (A1 & A2 & A3).
+          repeat split; auto. exists rest; exact B.
+  Qed.
+
+  (* what Fetch serves always hashes to the digest asked for *)
+  Lemma file_fetch_ok s name d bs :
+    file_ok s -> file_fetch s name d = Some bs ->
+    d_dg d = digest_of H (alg_of (d_dg d)) bs /\ valid_digest (d_dg d) = true.
+  Proof.
+    intros [Ok1 Ok2]. unfold file_fetch. destruct (negb _); [discriminate|].
+    destruct (assoc_get (f_d2p s) (d_dg d)) as [p|] eqn:Gp.
+    - destruct (Ok1 _ _ Gp) as (_ & bs' & Fb & Db & Vb). intro X. rewrite Fb in X. inversion X; subst. auto.
+    - intro G. apply Ok2 in G. destruct G as (A1 & A2 & A3). auto.
+  Qed.
 End Proofs.
+
+(* ------------------------------------------------------------------ histories *)
+Section HistoryProofs.
+  Variable H : str -> str -> str.
+
+  Lemma mem_reach_ok m : mem_reach H m -> mem_ok H m.
+  Proof.
+    induction 1 as [|comb fuel m d src e m' R IH E|comb fuel limit m d evs e m' R IH E].
+    - intros d bs; discriminate.
+    - eapply mem_push_ok; eauto.
+    - apply limited_push_spec in E as [(_ & ->)|(_ & E)]; auto. eapply mem_push_ok; eauto.
+  Qed.
+
+  Lemma oci_reach_ok s : oci_reach H s -> oci_ok H s.
+  Proof.
+    induction 1 as [|comb fuel s d src e s' R IH E|comb fuel limit s d evs e s' R IH E].
+    - intros d bs; discriminate.
+    - eapply oci_push_ok; eauto.
+    - apply limited_push_spec in E as [(_ & ->)|(_ & E)]; auto. eapply oci_push_ok; eauto.
+  Qed.
+
+  Lemma file_reach_ok s : file_reach H s -> file_ok H s.
+  Proof.
+    induction 1 as [|comb fuel s name d evs e s' R IH E].
+    - split; intros d bs; discriminate.
+    - eapply file_push_spec in E; eauto. apply E.
+  Qed.
+
+  (* ---------------------------------------------------------------- concurrency *)
+  Definition thr_ok (t : thr) : Prop :=
+    match t_pc t with
+    | PIngest w todo e =>
+        exists v, copy_buffer H (t_comb t) true (t_fuel t) (mkBase (t_evs t) None) oci_bufsz
+                              (d_dg (t_d t)) (d_sz (t_d t)) = ((e, w ++ todo), v)
+    | _ => True
+    end.
+
+  Definition cinv (st : cstate) : Prop := oci_ok H (c_blobs st) /\ Forall thr_ok (c_thr st).
+
+  Lemma Forall_set_nth {A} (P : A -> Prop) l i x : Forall P l -> P x -> Forall P (set_nth l i x).
+  Proof.
+    intros F Px. revert i. induction F as [|y l Py F IH]; intros [|i]; simpl; auto.
+  Qed.
+
+  Lemma Forall_nth_error {A} (P : A -> Prop) l i x : Forall P l -> nth_error l i = Some x -> P x.
+  Proof.
+    intros F. revert i. induction F as [|y l Py F IH]; intros [|i]; simpl; try discriminate.
+    - intro E; inversion E; subst; auto.
+    - apply IH.
+  Qed.
+
+  Lemma cstep_inv st i n st' : cinv st -> cstep H st i n = Some st' -> cinv st'.
+  Proof.
+    intros [Ob Ft]. unfold cstep. destruct (nth_error (c_thr st) i) as [t|] eqn:Ei; [|discriminate].
+    pose proof (Forall_nth_error _ _ _ _ Ft Ei) as Pt. unfold thr_ok in Pt.
+    destruct (t_pc t) as [|w todo e|r] eqn:Epc; [| |discriminate].
+    - destruct (negb (valid_digest (d_dg (t_d t)))).
+      { intro E; inversion E; subst. split; auto. apply Forall_set_nth; auto; try exact I. }
+      destruct (oci_get (c_blobs st) (d_dg (t_d t))).
+      { intro E; inversion E; subst. split; auto. apply Forall_set_nth; auto; try exact I. }
+      destruct (copy_buffer H (t_comb t) true (t_fuel t) (mkBase (t_evs t) None) oci_bufsz
+                            (d_dg (t_d t)) (d_sz (t_d t))) as [[e out] v] eqn:Ec.
+      intro E; inversion E; subst. split; auto. apply Forall_set_nth; auto.
+      unfold thr_ok; simpl. exists v. exact Ec.
+    - destruct Pt as [v Ec]. destruct todo as [|c todo].
+      + destruct e as [er|]; intro E; inversion E; subst; (split; [|apply Forall_set_nth; auto; try exact I]); auto.
+        simpl. rewrite app_nil_r in Ec. apply copy_buffer_sound in Ec as ((A1 & A2 & A3) & _).
+        intros dg bs. simpl. destruct (str_eqb (d_dg (t_d t)) dg) eqn:Q.
+        * apply str_eqb_spec in Q. subst dg. intro X; inversion X; subst. auto.
+        * apply Ob.
+      + intro E; inversion E; subst. split; auto. apply Forall_set_nth; auto.
+        unfold thr_ok; simpl. exists v. rewrite <- app_assoc.
+        change (c :: firstn (Nat.min n (length (c :: todo) - 1)) todo) with
+               (firstn (S (Nat.min n (length (c :: todo) - 1))) (c :: todo)).
+        change (skipn (S (Nat.min n (length (c :: todo) - 1))) (c :: todo)) with
+               (skipn (Nat.min n (length (c :: todo) - 1)) todo).
+        simpl firstn. simpl app. rewrite firstn_skipn. exact Ec.
+  Qed.
+
+  Lemma crun_inv sched : forall st st', cinv st -> crun H st sched = Some st' -> cinv st'.
+  Proof.
+    induction sched as [|[i n] r IH]; intros st st' Iv; simpl.
+    - intro E; inversion E; subst; auto.
+    - destruct (cstep H st i n) as [st1|] eqn:Es; [|discriminate].
+      apply IH. eapply cstep_inv; eauto.
+  Qed.
+
+  Lemma cinv_start blobs ts :
+    oci_ok H blobs -> Forall (fun t => t_pc t = PStart) ts -> cinv (mkC blobs ts).
+  Proof.
+    intros Ob F. split; auto. simpl. eapply Forall_impl; [|exact F].
+    intros t E. unfold thr_ok. rewrite E. exact I.
+  Qed.
+
+  (* a thread that reports success has, at that step, put its verified bytes under its digest *)
+  Lemma cstep_success st i n st' t :
+    cinv st -> cstep H st i n = Some st' ->
+    nth_error (c_thr st) i = Some t -> (exists w, t_pc t = PIngest w [] None) ->
+    exists w, oci_get (c_blobs st') (d_dg (t_d t)) = Some w /\
+              matches_desc H (d_dg (t_d t)) (d_sz (t_d t)) w /\ stream (t_evs t) = w.
+  Proof.
+    intros [Ob Ft] Es Ei [w Epc]. unfold cstep in Es. rewrite Ei, Epc in Es. inversion Es; subst; clear Es.
+    pose proof (Forall_nth_error _ _ _ _ Ft Ei) as Pt. unfold thr_ok in Pt. rewrite Epc in Pt.
+    destruct Pt as [v Ec]. rewrite app_nil_r in Ec. apply copy_buffer_sound in Ec as (A & _ & C).
+    exists w. simpl. rewrite str_eqb_refl. split; [reflexivity|]. split; [exact A|]. apply C. reflexivity.
+  Qed.
+
+  (* ---------------------------------------------------------------- the pre-fix behaviour *)
+  Definition sha256_name : str := b "sha256".
+  Definition empty_digest : str := digest_of H sha256_name [].
+
+  Lemma alg_of_empty_digest : alg_of empty_digest = sha256_name.
+  Proof. reflexivity. Qed.
+
+  Lemma copy_loop_neg comb bufsz :
+    copy_loop comb 1 (mkVr (mkBase [] None) (-1) [] None false) bufsz []
+    = ((None, []), mkVr (mkBase [] None) (-1) [] (Some EEof) false).
+  Proof. reflexivity. Qed.
+
+  Lemma ensure_eof_empty comb : ensure_eof comb 1 (mkBase [] None, []) = (true, (mkBase [] None, [])).
+  Proof. reflexivity. Qed.
+
+  Lemma vr_verify_neg comb dg :
+    verified H dg [] = true ->
+    vr_verify H comb 1 dg (mkVr (mkBase [] None) (-1) [] (Some EEof) false)
+    = (None, mkVr (mkBase [] None) (-1) [] (Some EEof) true).
+  Proof.
+    intro V. unfold vr_verify. cbn [v_verified v_err v_base v_hashed v_N].
+    rewrite ensure_eof_empty. cbn [negb]. rewrite V. reflexivity.
+  Qed.
+
+  Lemma verified_empty_digest : verified H empty_digest [] = true.
+  Proof. unfold verified. rewrite alg_of_empty_digest. apply str_eqb_refl. Qed.
+
+  (* before the repair: CopyBuffer (hence oci.Storage.Push and file.Store) accepts a
+     negative Size with empty content and stores the empty blob under it *)
+  Lemma copy_buffer_prefix_negative_size comb bufsz :
+    valid_digest empty_digest = true ->
+    copy_buffer H comb false 1 (mkBase [] None) bufsz empty_digest (-1)
+    = ((None, []), mkVr (mkBase [] None) (-1) [] (Some EEof) true).
+  Proof.
+    intro V. unfold copy_buffer, new_vr, new_vr_gen. rewrite V. cbn [negb andb].
+    rewrite copy_loop_neg. rewrite (vr_verify_neg comb _ verified_empty_digest). reflexivity.
+  Qed.
+
+  Lemma oci_push_prefix_negative_size comb mt :
+    valid_digest empty_digest = true ->
+    oci_push H comb false 1 [] (mkDesc mt empty_digest (-1)) (mkBase [] None)
+    = (None, [(empty_digest, [])]).
+  Proof.
+    intro V. unfold oci_push. cbn [d_dg d_sz]. rewrite V. cbn [negb oci_get].
+    rewrite (copy_buffer_prefix_negative_size comb _ V). reflexivity.
+  Qed.
+End HistoryProofs.
+
+(* ------------------------------------------------------------------ what is rejected *)
+Section Rejects.
+  Variable H : str -> str -> str.
+
+  (* the reasons for which (reader, descriptor) is not "exactly the bytes the
+     descriptor names": malformed / unsupported digest, negative size, fewer than
+     Size bytes in the reader, first Size bytes hashing to something else, and --
+     when the reader is not cut by a LimitReader -- bytes beyond Size *)
+  Definition bad_input (src : base) (dg : str) (sz : Z) : Prop :=
+    valid_digest dg = false \/ (sz < 0)%Z \/
+    (Z.of_nat (length (stream (b_evs src))) < sz)%Z \/
+    dg <> digest_of H (alg_of dg) (firstn (Z.to_nat sz) (stream (b_evs src))) \/
+    (b_lim src = None /\ (sz < Z.of_nat (length (stream (b_evs src))))%Z).
+
+  Lemma good_not_bad src dg sz out :
+    matches_desc H dg sz out -> (exists rest, stream (b_evs src) = out ++ rest) ->
+    (b_lim src = None -> stream (b_evs src) = out) -> ~ bad_input src dg sz.
+  Proof.
+    intros (A1 & A2 & A3) (rest & B) C [X|[X|[X|[X|[X1 X2]]]]].
+    - congruence.
+    - lia.
+    - rewrite B, app_length in X. lia.
+    - apply X. rewrite B. replace (Z.to_nat sz) with (length out) by lia.
+      rewrite firstn_app_exact. exact A2.
+    - rewrite (C X1) in X2. lia.
+  Qed.
+
+  Lemma read_all_rejects comb fixed fuel src dg sz buf v :
+    bad_input src dg sz -> read_all H comb fixed fuel src dg sz <> ((None, buf), v).
+  Proof.
+    intros B E. apply read_all_sound in E as (A1 & A2 & A3). eapply good_not_bad; eauto.
+  Qed.
+
+  Lemma copy_buffer_rejects comb fuel src bufsz dg sz out v :
+    bad_input src dg sz -> copy_buffer H comb true fuel src bufsz dg sz <> ((None, out), v).
+  Proof.
+    intros B E. apply copy_buffer_sound in E as (A1 & A2 & A3). eapply good_not_bad; eauto.
+  Qed.
+
+  Lemma mem_push_rejects comb fixed fuel m d src e m' :
+    bad_input src (d_dg d) (d_sz d) -> mem_push H comb fixed fuel m d src = (e, m') -> e <> None /\ m' = m.
+  Proof.
+    intros B E. apply mem_push_spec in E as [(-> & _ & buf & _ & A & A2 & A3)|X]; auto.
+    exfalso. eapply good_not_bad; eauto.
+  Qed.
+
+  Lemma oci_push_rejects comb fuel s d src e s' :
+    bad_input src (d_dg d) (d_sz d) -> oci_push H comb true fuel s d src = (e, s') -> e <> None /\ s' = s.
+  Proof.
+    intros B E. apply oci_push_spec in E as [(-> & _ & buf & _ & A & A2 & A3)|X]; auto.
+    exfalso. eapply good_not_bad; eauto.
+  Qed.
+
+  Lemma limited_mem_push_rejects comb fixed fuel limit m d evs e m' :
+    bad_input (mkBase evs (Some (d_sz d))) (d_dg d) (d_sz d) ->
+    limited_push (mem_push H comb fixed fuel) limit m d evs = (e, m') -> e <> None /\ m' = m.
+  Proof.
+    intros B E. apply limited_push_spec in E as [(-> & ->)|(_ & E)].
+    - split; [discriminate|reflexivity].
+    - eapply mem_push_rejects; eauto.
+  Qed.
+
+  Lemma file_push_rejects comb fuel s name d evs e s' :
+    bad_input (mkBase evs (match name with [] => Some (d_sz d) | _ => None end)) (d_dg d) (d_sz d) ->
+    file_push H comb true fuel s name d evs = (e, s') -> e <> None.
+  Proof.
+    unfold file_push. destruct name as [|c n0]; intro B.
+    - destruct (limited_push _ _ _ _ _) as [e0 fb'] eqn:El. intro E; inversion E; subst.
+      eapply limited_mem_push_rejects in El; eauto. apply El.
+    - destruct (name_in (c :: n0) (f_names s)); [intro E; inversion E; discriminate|].
+      destruct (copy_buffer H comb true fuel (mkBase evs None) file_bufsz (d_dg d) (d_sz d)) as [[[e0|] out] v] eqn:Ec;
+        intro E; inversion E; subst; [discriminate|].
+      exfalso. eapply copy_buffer_rejects; eauto.
+  Qed.
+End Rejects.
